@@ -52,7 +52,7 @@ ASSUMPTIONS = [
     'leftover(return_none=True)/expired() on a new watch without duration may return None/False; '
     'elapsed(maximum < 0); split values under a backwards clock',
 ]
-INTERPRETER_FLAGS = [[], ['-O'], [], ['-bb']]
+INTERPRETER_FLAGS = [[], ['-O'], ['-X', 'dev'], ['-bb']]
 SHARDS = {'quick': 4, 'thorough': 16}
 
 TINY, LARGE = 2.0 ** -20, 2.0 ** 20
@@ -70,6 +70,31 @@ class Boom(Exception):
     pass
 
 
+_CLOCKS = []
+
+
+def _clock_by_index(i):
+    return _CLOCKS[i]
+
+
+class CellClock:
+    """A replaceable clock function reading one cell.  It survives pickling and deepcopy as the SAME object (a watch that
+    wrongly keeps a reference to the clock it saw first can then still travel, and shows its stale reading)."""
+    def __init__(self, cell):
+        self.cell = cell
+        self.index = len(_CLOCKS)
+        _CLOCKS.append(self)
+
+    def __call__(self):
+        return self.cell[0]
+
+    def __reduce__(self):
+        return (_clock_by_index, (self.index,))
+
+    def __deepcopy__(self, memo):
+        return self
+
+
 class Kit:
     """Per-worker harness state: clock cell, method table, counters, current path."""
 
@@ -80,7 +105,7 @@ class Kit:
         self.SW = SW = timeutils.StopWatch
         self.cell = cell = [T0]
         self.saved_now = timeutils.now
-        timeutils.now = lambda: cell[0]
+        timeutils.now = CellClock(cell)
         self.F = [SW.start, SW.stop, SW.resume, SW.restart, SW.split, SW.elapsed, None, SW.leftover,
                   None, SW.expired, SW.__enter__, None]
         self.visit_mono = [0] * 36
@@ -97,7 +122,7 @@ class Kit:
         until now keeps answering, but with a reading far in the past (a watch must look the clock up when it needs it)."""
         old, new = self.cell, [self.cell[0]]
         self.cell = new
-        self.tu.now = lambda: new[0]
+        self.tu.now = CellClock(new)
         old[0] = -1.0e9
 
     def configure(self, duration, times, maximum, mono):
@@ -418,6 +443,10 @@ def _evaluate_inner(K, case):
         seq2 = [OPS.index(name) for name in second['sequence']]
         K.bump('two-watches-interleaved')
     for i, op in enumerate(seq):
+        if case.get('swap_at') == i:
+            # the module-level clock is replaced (re-assigned, mock.patch'ed) in the middle of the watch's history
+            K.swap_clock()
+            K.bump('clock-replaced-mid-history')
         if case.get('copy_at') == i:
             # the watch travels (pickle round trip / deepcopy) in the middle of its history and the copy is used from
             # here on: same state, same answers
@@ -434,7 +463,7 @@ def _evaluate_inner(K, case):
             call_and_check(K, w2, m2, seq2[i], times[i + 1])
             path[i] = op
     ctx.case((tuple(seq), duration, tuple(steps), times[0], K.maximum, K.exit_args[0] is not None, K.kw,
-              repr(second) if second else None, bool(case.get('swap_clock')), case.get('copy_at'), case.get('copy_how')),
+              repr(second) if second else None, bool(case.get('swap_clock')), case.get('swap_at'), case.get('copy_at'), case.get('copy_how')),
              nontrivial=left_new)
     K.exit_args = (None, None, None)
     K.kw = True
@@ -735,6 +764,8 @@ def run(ctx):
                 case = random_case(crng, backwards=i >= n_mono)
                 if i % 3 == 1:
                     case['swap_clock'] = True
+                if i % 3 == 2 and len(case['steps']) >= 2:
+                    case['swap_at'] = crng.randrange(1, len(case['steps']))
                 if i % 4 == 2:
                     case['warnings_as_errors'] = True
                 if i % 5 == 2 and len(case['steps']) >= 2:
